@@ -1,11 +1,73 @@
 (** C18 — parser_method! behaves like the equivalent chain of Parser method calls;
     the bytes matched for a literal are the bytes rustc gives that literal.
     Statements only; every proof is [exact <lemma>]. *)
-From KV Require Import Base.Prelude Model.ParserMethod Proofs.ParserMethodProofs.
+From KV Require Import Base.Prelude Model.ParserMethod Spec.Search Spec.ParserMethod
+  Proofs.ParserMethodProofs.
 Local Open Scope nat_scope.
 
-Theorem C18_pattern_is_prefix : forall lit bytes r,
-  pat_start lit bytes = Some r <-> bytes = lit ++ r.
-Proof. exact pat_start_spec. Qed.
+(** the generated slice patterns [b0,..,bn, rem @ ..] / [rem @ .., b0,..,bn] match exactly
+    the byte strings that start / end with the literal; [rem] is the rest *)
+Theorem C18_pattern : forall s lit bytes r,
+  pat s lit bytes = Some r <-> splits (end_of s) lit bytes r.
+Proof. exact pat_spec. Qed.
 
-Print Assumptions C18_pattern_is_prefix.
+(** strip_prefix / strip_suffix: the arm that runs is the FIRST LISTED alternative that
+    is a prefix (suffix), [rem] is what is left after it ... *)
+Theorem C18_strip_first_listed : forall s arms bytes i r,
+  match_arms s arms bytes = Some (i, r) <->
+  exists j a, first_listed (fun a => matches (end_of s) a bytes) arms j i a /\
+              splits (end_of s) a bytes r.
+Proof. exact match_arms_some. Qed.
+(** ... and the default arm runs exactly when no alternative is a prefix (suffix) *)
+Theorem C18_strip_default : forall s arms bytes,
+  match_arms s arms bytes = None <-> none_listed (fun a => matches (end_of s) a bytes) arms.
+Proof. exact match_arms_none. Qed.
+
+(** find_skip: the EARLIEST offset at which any alternative occurs, among the
+    alternatives occurring there the first listed; the remainder starts after it *)
+Theorem C18_find_earliest_then_first_listed : forall arms bytes i r,
+  find_loop_start arms bytes = Some (i, r) <->
+  exists k j a, first_listed (fun a => occ bytes a k) arms j i a /\
+                r = skipn (k + length a) bytes /\
+                forall k', k' < k -> none_listed (fun a => occ bytes a k') arms.
+Proof. exact find_loop_start_some. Qed.
+Theorem C18_find_default : forall arms bytes,
+  find_loop_start arms bytes = None <-> forall k, none_listed (fun a => occ bytes a k) arms.
+Proof. exact find_loop_start_none. Qed.
+
+(** rfind_skip, the dual: the LATEST offset at which an occurrence of any alternative
+    ENDS, among the alternatives ending there the first listed; the remainder ends
+    before it *)
+Theorem C18_rfind_dual : forall arms bytes i r,
+  find_loop_end arms (rev bytes) = Some (i, r) <->
+  exists e j a, first_listed (fun a => occ_end bytes a e) arms j i a /\
+                r = firstn (e - length a) bytes /\
+                forall e', e < e' -> none_listed (fun a => occ_end bytes a e') arms.
+Proof. exact find_loop_end_some. Qed.
+Theorem C18_rfind_default : forall arms bytes,
+  find_loop_end arms (rev bytes) = None <-> forall e, none_listed (fun a => occ_end bytes a e) arms.
+Proof. exact find_loop_end_none. Qed.
+
+(** trim_start_matches / trim_end_matches: the while-let computes [trims] (remove the
+    first listed alternative that matches until none, or an empty literal, does), with
+    the fuel the model gives it, and [trims] is a function *)
+Theorem C18_trim_iterated : forall s arms bytes out,
+  trim_loop (S (length bytes)) s arms bytes = Some out <-> trims (end_of s) arms bytes out.
+Proof. exact trim_loop_iff. Qed.
+Theorem C18_trim_terminates : forall s arms bytes,
+  exists out, trim_loop (S (length bytes)) s arms bytes = Some out.
+Proof. exact trim_loop_fuel. Qed.
+Theorem C18_trims_functional : forall e arms bytes o1 o2,
+  trims e arms bytes o1 -> trims e arms bytes o2 -> o1 = o2.
+Proof. exact trims_functional. Qed.
+
+Print Assumptions C18_pattern.
+Print Assumptions C18_strip_first_listed.
+Print Assumptions C18_strip_default.
+Print Assumptions C18_find_earliest_then_first_listed.
+Print Assumptions C18_find_default.
+Print Assumptions C18_rfind_dual.
+Print Assumptions C18_rfind_default.
+Print Assumptions C18_trim_iterated.
+Print Assumptions C18_trim_terminates.
+Print Assumptions C18_trims_functional.
